@@ -42,22 +42,40 @@ def run_history(chk, da, rng, hid):
     src0 = src.copy()
     chunks = tuple(progs.rand_chunks_for(rng, n) for n in shape)
     x = da.from_array(src, chunks=chunks)
-    if rng.random() < 0.5:
+    masked_mode = rng.random() < 0.3
+    if rng.random() < 0.5 and not masked_mode:
         x = x + 0            # not a bare source
-    mirror = src.copy()
+    mirror = src.copy()          # masked values assigned into a plain array (NumPy's MaskedArray semantics are the oracle)
+    if masked_mode:
+        mirror = np.ma.array(mirror)
     others = []              # (collection, expected value, how derived)
     log = []
     nsteps = rng.choice([3, 5, 8])
     chk.case(("history", hid, shape, chunks), nontrivial=True,
              sample={"shape": shape, "chunks": chunks} if hid < 3 else None)
 
+    def same(got, want):
+        if isinstance(want, np.ma.MaskedArray) or isinstance(got, np.ma.MaskedArray):
+            gm, wm = np.ma.getmaskarray(got), np.ma.getmaskarray(want)
+            return got.shape == want.shape and np.array_equal(gm, wm) and np.array_equal(np.ma.getdata(got)[~gm], np.ma.getdata(want)[~wm])
+        return np.array_equal(got, want)
+
     def check_all(step):
         problems = []
         try:
             with warnings.catch_warnings():
                 warnings.simplefilter("ignore")
+                # the advertised keys must be the grid of the CURRENT name and be defined by the current graph
+                import itertools
+                from c03 import flat_keys
+                keys = list(flat_keys(x.__dask_keys__()))
+                grid = [(x.name, *idx) for idx in itertools.product(*[range(n) for n in x.numblocks])]
+                if keys != grid:
+                    problems.append(("stale-keys", "__dask_keys__ is not the block grid of the collection's current name"))
+                elif any(k not in x.__dask_graph__() for k in keys):
+                    problems.append(("stale-keys", "the current graph does not define the advertised keys"))
                 got = x.compute(scheduler="sync")
-            if not np.array_equal(got, mirror):
+            if not same(got, mirror):
                 problems.append(("target", "x does not equal the NumPy result of the same assignments"))
         except Exception as e:  # noqa: BLE001
             problems.append(("target-raises", f"x.compute() raises {type(e).__name__}: {str(e)[:80]}"))
@@ -68,7 +86,7 @@ def run_history(chk, da, rng, hid):
                 with warnings.catch_warnings():
                     warnings.simplefilter("ignore")
                     got = coll.compute(scheduler="sync")
-                if not np.array_equal(got, want):
+                if not same(got, want):
                     problems.append(("other", f"a collection derived earlier by `{how}` changed its value"))
             except Exception as e:  # noqa: BLE001
                 problems.append(("other-raises", f"a collection derived earlier by `{how}` now raises {type(e).__name__}"))
@@ -80,18 +98,24 @@ def run_history(chk, da, rng, hid):
             chk.traces_validated += 1
 
     for step in range(nsteps):
-        op = rng.choice(["derive", "setitem", "setitem", "setitem", "ufunc-out", "compute"])
+        op = rng.choice(["derive", "setitem", "setitem", "setitem", "ufunc-out", "compute", "keys"])
+        if masked_mode and step == 0:
+            op = "derive"        # a sibling taken before the first masked assignment
         chk.count("op:" + op)
         try:
             with warnings.catch_warnings():
                 warnings.simplefilter("ignore")
                 if op == "derive":
-                    how = rng.choice(["x[::2]", "x.T", "x + 1", "x[...]", "x[0:]", "x.sum()", "x.rechunk(-1)"])
+                    how = rng.choice(["x[::2]", "x.T", "x + 1", "x[...]", "x[0:]", "x.sum()", "x.rechunk(-1)"] if not masked_mode else ["x[::2]", "x.T", "x + 1", "x[0:]"])
                     coll = eval(how, {"x": x})
                     others.append((coll, eval(how, {"x": mirror.copy()}) if "rechunk" not in how else mirror.copy(), how))
+                    if rng.random() < 0.5:
+                        coll.compute(scheduler="sync")          # materialize the sibling before later assignments
                     log.append(f"derive {how}" + (" (is x)" if coll is x else ""))
                 elif op == "setitem":
                     key, kind = rand_key(rng, shape)
+                    while masked_mode and kind not in ("basic", "neg-step", "int"):
+                        key, kind = rand_key(rng, shape)        # comparisons on masked data have their own semantics: keep the oracle simple
                     chk.count("key:" + kind)
                     vkind = rng.choice(["scalar", "array", "dask"])
                     if kind == "bool-np":
@@ -103,6 +127,16 @@ def run_history(chk, da, rng, hid):
                         key = x > t
                         vkind = "scalar"
                     val = rng.randint(-9, 9)
+                    if masked_mode and kind in ("basic", "neg-step", "int") and rng.random() < 0.7:
+                        tgt = np.ma.getdata(mirror)[key]
+                        mv = np.ma.array(np.arange(tgt.size).reshape(tgt.shape) + 200, mask=(np.arange(tgt.size).reshape(tgt.shape) % 2 == 0)) \
+                            if tgt.ndim else np.ma.masked
+                        mirror[key] = mv
+                        x[key] = mv
+                        log.append(f"setitem key={kind} value=masked")
+                        chk.count("value:masked")
+                        check_all(step)
+                        continue
                     if kind not in ("bool-np", "bool-dask") and vkind != "scalar":
                         tgt = mirror[key]
                         val_np = (np.arange(tgt.size).reshape(tgt.shape) + 100) if rng.random() < 0.7 or tgt.ndim == 0 else np.full(tgt.shape[-1:], 77)
@@ -118,6 +152,12 @@ def run_history(chk, da, rng, hid):
                     da.add(x, 1, out=x)
                     mirror += 1
                     log.append("ufunc-out add(x, 1, out=x)")
+                elif op == "keys":
+                    import dask
+                    x.__dask_keys__()
+                    if rng.random() < 0.5:
+                        dask.compute(x, scheduler="sync")
+                    log.append("keys (populate caches: __dask_keys__ / dask.compute)")
                 else:
                     log.append("compute")
         except (NotImplementedError, ValueError, IndexError, TypeError) as e:
@@ -137,7 +177,7 @@ def run(chk: Check):
                 "(a derivation that returned the target object itself counts as the target), and the source ndarray with its original")
     chk.assumptions = ["collection identity is Python object identity: x[:] / x[...] / asarray(x) return x itself and therefore track it (DESIGN F9)"]
     chk.run_proofs()
-    n = 4000 if chk.tier == "thorough" else 250
+    n = 4000 if chk.tier == "thorough" else 400
     for hid in range(n):
         run_history(chk, da, chk.rng, hid)
 
